@@ -59,6 +59,12 @@ def main(argv):
         else:
             i += 1
     seed = int(os.environ.get("VERIF_SEED", "20240601"))
+    if replay:
+        # a replay file records the seed and tier of the run that produced it: every generator is a function of the seed,
+        # so re-running the check with them regenerates the same inputs against the CURRENT tree
+        import json
+        rec = json.load(open(replay))
+        seed, tier = int(rec.get("seed", seed)), rec.get("tier", tier)
     common.assert_pacti_from_repo()
     import props
     mod = importlib.import_module(f"props.{prop.lower()}")
